@@ -9,6 +9,7 @@
 package c17
 
 import (
+	"encoding/json"
 	"os"
 	"strconv"
 	"strings"
@@ -189,8 +190,17 @@ func FuzzC17(f *testing.F) {
 		f.Add("a", s)
 	}
 	f.Fuzz(func(t *testing.T, cur, s string) {
-		if strings.ContainsAny(cur, ":") || strings.HasSuffix(cur, "/") || strings.Contains(cur, "...") {
-			return // current packages are real directory paths
+		if !refmodel.ValidPkg(cur) {
+			return // current packages are real, clean, workspace-relative directory paths
+		}
+		for _, seg := range strings.Split(cur, "/") {
+			if seg == "." || seg == ".." {
+				return // "." is how callers spell the root package; it never appears as a path segment
+			}
+		}
+		if p := os.Getenv("VERIF_EXPORT"); p != "" {
+			b, _ := json.Marshal(map[string]any{"part": "random", "property": "C17", "signature": "fuzz-crasher", "case": Case{Cur: cur, S: s}})
+			_ = os.WriteFile(p, b, 0o644)
 		}
 		if _, err := run(Case{Cur: cur, S: s}); err != nil {
 			t.Fatalf("%v", err)
